@@ -45,6 +45,9 @@ HasADL == IsR /\ IsADLResult(Ev.res) /\ DOMAIN Ev.adl # {}
 Cond_X_ADLBytes == (HasADL /\ Ev.kind = "bytes") => ADLBytesOK(Ev.adl)
 Cond_X_ADLBytesLength == (HasADL /\ Ev.kind = "bytes") => ADLBytesLength(Ev.adl)
 Cond_X_ADLMap == (HasADL /\ Ev.kind = "map") => ADLMapOK(Ev.adl)
+HasPair == IsH /\ hm.res \in {"dir", "hamtdir", "linkmap"} /\ Ev.op = "pair" /\ Ev.info = "pair"
+Cond_X_ADLPair == HasPair => (ADLKeyOK(Ev.pair.k) /\ ADLValueOK(Ev.pair.v))
+Cond_X_ADLPairLength == HasPair => (ADLScalarLength(Ev.pair.k) /\ ADLScalarLength(Ev.pair.v))
 \* beyond the listed properties: the outcome of every operation on a hostile sharded directory is the one the
 \* transcription of the reader (HostileOps) predicts from the stored blocks
 HO == INSTANCE HostileOps
@@ -56,6 +59,14 @@ Cond_X_HamtLookup == (IsH /\ Modelled /\ Ev.op = "lookup-string" /\ Ev.key > 0 /
 Cond_X_HamtLength == (IsH /\ Modelled /\ Ev.op = "length" /\ Ev.n >= 0) => Ev.n = HO!LengthReported(hm.H, hm.root)
 Cond_X_HamtIter == (IsH /\ Modelled /\ Ev.op = "iter-map" /\ Ev.out = "value") =>
     LET r == HO!Iter(hm.H, hm.root) IN Ev.steps = Len(r) /\ Ev.errs = HO!CountOf(r, "e")
+\* the exported constructors called directly on a dag-pb root: the HAMT constructor accepts exactly the shards the
+\* transcription accepts (AttemptHAMTShardFromNode also when the library's own decoder refuses the data: an error),
+\* the plain-directory constructor exactly the roots of type Directory
+HasCtor == IsR /\ DOMAIN Ev.ctor # {}
+Cond_X_Ctor == HasCtor =>
+    /\ (Ev.ctor.attempt = "ok") <=> HO!ShardOK(Ev.ctor.rootE)
+    /\ Ev.ctor.shard # "na" => ((Ev.ctor.shard = "ok") <=> HO!ShardOK(Ev.ctor.rootE))
+    /\ Ev.ctor.basicdir # "na" => ((Ev.ctor.basicdir = "ok") <=> (Ev.ctor.rootE.kind = "unixfs" /\ Ev.ctor.rootE.typ = 1))
 
 \* ... and of reading a hostile file DAG as a whole (FileHostileOps): lazy reification of a file root always succeeds,
 \* the preloading one (of a root of type File) exactly when reading everything succeeds; AsBytes delivers the predicted number of bytes or fails
@@ -79,10 +90,13 @@ Inv_X_HamtReify == Chk("Inv_X_HamtReify", Cond_X_HamtReify)
 Inv_X_HamtLookup == Chk("Inv_X_HamtLookup", Cond_X_HamtLookup)
 Inv_X_HamtLength == Chk("Inv_X_HamtLength", Cond_X_HamtLength)
 Inv_X_HamtIter == Chk("Inv_X_HamtIter", Cond_X_HamtIter)
+Inv_X_Ctor == Chk("Inv_X_Ctor", Cond_X_Ctor)
 Inv_X_FileReify == Chk("Inv_X_FileReify", Cond_X_FileReify)
 Inv_X_FileBytes == Chk("Inv_X_FileBytes", Cond_X_FileBytes)
 Inv_X_ADLBytes == Chk("Inv_X_ADLBytes", Cond_X_ADLBytes)
 Inv_X_ADLBytesLength == Chk("Inv_X_ADLBytesLength", Cond_X_ADLBytesLength)
 Inv_X_ADLMap == Chk("Inv_X_ADLMap", Cond_X_ADLMap)
+Inv_X_ADLPair == Chk("Inv_X_ADLPair", Cond_X_ADLPair)
+Inv_X_ADLPairLength == Chk("Inv_X_ADLPairLength", Cond_X_ADLPairLength)
 Alias == [l |-> l]
 =============================================================================
